@@ -181,6 +181,7 @@ class Interp:
         self.decide = decide        # hook(interp, term) -> bool|None
         self.pure_calls = set(pure_calls)
         self.on_method = None       # hook(term, name, args, kwargs)
+        self.stubs = {}             # in-repo qualname -> behaviour
         self.types = {}             # term -> type tag
         self.attrs = {}             # term -> {attribute: value}
         self.lens = {}              # term -> known length
@@ -355,6 +356,9 @@ class Interp:
         if isinstance(f, AbsFunc):
             return f.behaviour(self, list(args), dict(kwargs))
         if isinstance(f, FuncRef):
+            stub = self.stubs.get(f.qualname)
+            if stub is not None:
+                return stub(self, list(args), dict(kwargs))
             return self.call_func(f, list(args), kwargs)
         if isinstance(f, ClassRef):
             return self.instantiate(f, list(args), kwargs)
